@@ -188,6 +188,7 @@ def run(c, chk):
     model = pm.ParserModel(c)
     thorough = chk.tier == 'thorough'
     flag_reaches_sections(c, chk)
+    skipped_item_leaves_nothing(c, chk)
     depth, width = (2, 2)
     # which states form the skipper: reachable from the unknown-name arm of state 0
     entry = None
@@ -200,6 +201,13 @@ def run(c, chk):
     if entry is None:
         raise report.Broken('the unknown-name arm of the "expecting a name" state was not found')
     chk.analysed = {'parser_states': len(model.states), 'skipper_entry_state': entry, 'nesting_bound': depth, 'width_bound': width}
+    chk.rule('R12.7', 'when an unknown name is met the option completed before it is let go (no second deprecation report, no value attributed to it)')
+    nxo = entry_tr.next.get('opt')
+    if nxo == sym.C0 or (nxo is not None and nxo != ('p', 'opt') and nxo[0] == 'call'):
+        chk.ok('R12.7', 'unknown-name arm', 'the parser\'s current option becomes %s' % sym.render(nxo))
+    else:
+        chk.fail('R12.7', 'stale-option', c.where(model.fn), 'after an unknown name the parser keeps pointing at the option it completed before (%s): '
+                 'once the unknown item is skipped that option is handled a second time (e.g. its deprecation is reported again)' % (sym.render(nxo) if nxo else 'unchanged'))
     if entry_tr.errors():
         chk.fail('R12.1', 'entry-diagnostic', c.where(model.fn), 'entering the skipper emits a diagnostic %r' % entry_tr.errors())
 
@@ -446,3 +454,23 @@ def flag_reaches_sections(c, chk):
     else:
         chk.ok('R12.6', 'cfg_setopt: %d section-creating paths' % n, 'the new section\'s flags start as the whole flag word of the parent context', sample=True)
     chk.floor('R12.6 section-creating paths', n, 2)
+
+
+def skipped_item_leaves_nothing(c, chk):
+    """R12.8: skipping an unknown item is a no-op also for what the parser holds: a pending comment or title released on
+    the way into the skipper is not kept for a later iteration"""
+    from . import c07, c08
+    chk.rule('R12.8', 'nothing the parser has released while skipping an unknown item is still referenced afterwards (pending comment, title)')
+
+    class OnlyDangling(c08.chk_proxy):
+        def fail(self, rule, key, *a, **kw):
+            if rule == 'R7.2':
+                return self._chk.fail('R12.8', key, *a, **kw)
+            return None
+
+        def ok(self, rule, *a, **kw):
+            return self._chk.ok('R12.8', *a, **kw)
+
+        def floor(self, *a, **kw):
+            return None
+    c07.parser_ownership(c, OnlyDangling(chk, {}))
